@@ -228,6 +228,111 @@ pub fn c18child(o: &mut O, threads: usize, inputs_path: &str) {
     }
 }
 
+/// (iv) reentrancy on ONE thread: several validations in flight at once, their futures polled
+/// round-robin by hand, with providers that return Pending from poll_ready and from the answer
+/// future, so that every validation is suspended while the others run.
+fn interleaved_digests(items: &[Item]) -> Vec<Option<String>> {
+    use bytes::Bytes;
+    use scratchstack_aws_signature::errors::ServiceError;
+    use scratchstack_aws_signature::{sigv4_validate_request, SignatureError, SignatureOptions, SliceSignedHeaderRequirements};
+    use std::borrow::Cow;
+    use std::future::Future;
+    use std::pin::Pin;
+    use std::task::{Context, Poll, Wake, Waker};
+    type Out = Option<(Outcome, Vec<Call>)>;
+    let mut futs: Vec<Option<Pin<Box<dyn Future<Output = Out>>>>> = Vec::new();
+    for it in items.iter() {
+        let w = it.wire.clone();
+        let c = it.cfg.clone();
+        let mut p = it.prov.clone();
+        p.ready_pending = 1 + (futs.len() as u32 % 3);
+        p.call_pending = 1 + (futs.len() as u32 % 2);
+        futs.push(Some(Box::pin(async move {
+            let req = build_request(&w).ok()?;
+            let opts = SignatureOptions {
+                s3: c.s3,
+                url_encode_form: c.fold,
+            };
+            let cows = |v: &[String]| -> Vec<Cow<'static, str>> { v.iter().map(|s| Cow::Owned(s.clone())).collect() };
+            let (a, b, d) = (cows(&c.always), cows(&c.ifreq), cows(&c.prefixes));
+            let reqs = SliceSignedHeaderRequirements::new(&a, &b, &d);
+            let mut svc = ScriptedProvider::new(p);
+            let log = svc.log.clone();
+            let (parts, body) = req.into_parts();
+            let r = http::Request::from_parts(parts, Bytes::from(body));
+            let res = sigv4_validate_request(r, &c.region, &c.service, &mut svc, now_of(&c), &reqs, opts).await;
+            let outcome = match res {
+                Ok((parts, body, resp)) => Outcome::Accepted {
+                    method: parts.method.as_str().as_bytes().to_vec(),
+                    uri: parts.uri.to_string().into_bytes(),
+                    version: version_id(parts.version),
+                    headers: parts.headers.iter().map(|(k, v)| (k.as_str().as_bytes().to_vec(), v.as_bytes().to_vec())).collect(),
+                    body: body.to_vec(),
+                    principal: principal_tag(resp.principal()),
+                    session: session_tag(resp.session_data()),
+                },
+                Err(e) => match e.downcast::<SignatureError>() {
+                    Ok(se) => Outcome::Refused {
+                        kind: kind_id(&se),
+                        code: se.error_code().as_bytes().to_vec(),
+                        status: se.http_status().as_u16(),
+                        message: se.to_string(),
+                    },
+                    Err(e) => Outcome::OtherError(e.to_string()),
+                },
+            };
+            let calls = log.lock().unwrap().calls.clone();
+            Some((outcome, calls))
+        })));
+    }
+    struct W;
+    impl Wake for W {
+        fn wake(self: Arc<Self>) {}
+    }
+    let waker = Waker::from(Arc::new(W));
+    let mut cx = Context::from_waker(&waker);
+    let mut results: Vec<Option<String>> = vec![None; futs.len()];
+    let mut remaining = futs.len();
+    let mut rounds = 0;
+    while remaining > 0 && rounds < 100_000 {
+        rounds += 1;
+        for (i, slot) in futs.iter_mut().enumerate() {
+            if let Some(f) = slot {
+                let polled = catch(|| f.as_mut().poll(&mut cx));
+                match polled {
+                    Ok(Poll::Ready(out)) => {
+                        results[i] = out.map(|(outcome, calls)| {
+                            digest(&Observed {
+                                outcome,
+                                log: ProvLog {
+                                    ready_polls: 0,
+                                    calls,
+                                    call_before_ready: false,
+                                    future_polls: 0,
+                                },
+                                path: vec![],
+                                query: None,
+                                canonical_request: None,
+                                string_to_sign: None,
+                                decoded: None,
+                            })
+                        });
+                        *slot = None;
+                        remaining -= 1;
+                    }
+                    Ok(Poll::Pending) => {}
+                    Err(_) => {
+                        results[i] = Some("P#".to_string());
+                        *slot = None;
+                        remaining -= 1;
+                    }
+                }
+            }
+        }
+    }
+    results
+}
+
 fn c18_check(o: &mut O, items: &[Item], out_path: &str, thread_counts: &[usize]) {
     // (i) twice in this process
     let mut lines = Vec::new();
@@ -244,6 +349,42 @@ fn c18_check(o: &mut O, items: &[Item], out_path: &str, thread_counts: &[usize])
         }
         first.push(da);
         lines.push(input_line(18, &it.wire, &it.cfg, &it.prov, &NO_EXPECT));
+    }
+    // (iv) interleaved on one thread, in groups of up to 8 validations in flight
+    for (g, chunk) in items.chunks(8).enumerate() {
+        // a single validation can only interleave with itself: pair it with a copy
+        let mut group: Vec<Item> = chunk
+            .iter()
+            .map(|it| Item {
+                tag: it.tag.clone(),
+                wire: it.wire.clone(),
+                cfg: it.cfg.clone(),
+                prov: it.prov.clone(),
+                expected_sig: None,
+            })
+            .collect();
+        if group.len() == 1 {
+            let it = &chunk[0];
+            group.push(Item {
+                tag: it.tag.clone(),
+                wire: it.wire.clone(),
+                cfg: it.cfg.clone(),
+                prov: it.prov.clone(),
+                expected_sig: None,
+            });
+        }
+        let ds = interleaved_digests(&group);
+        for (k, _) in chunk.iter().enumerate() {
+            let i = g * 8 + k;
+            match &ds[k] {
+                Some(d) if *d == first[i] => {}
+                Some(_) => {
+                    ok[i] = false;
+                    why[i].push("interleaved_on_one_thread".to_string());
+                }
+                None => {}
+            }
+        }
     }
     // (ii)+(iii) fresh processes, each with its own hash seeds and cold lazy statics
     let inputs = format!("{}.c18in", out_path);
